@@ -176,6 +176,7 @@ def gen_lhs(rng, xs, w):
 # and on the bits of the other side.  Two layers (inner establishes known bits, outer is the arm), then ALL ten comparisons against
 # constants around the alignment the arm cares about (k*2^n, k*2^n +- 1) and uniform ones: "shifted comparisons with unaligned constants".
 LAYERS = ["and_low", "and_high", "and_any", "zext", "concat0", "concatc", "sext", "shl", "lshr", "extract", "extract0", "ashr", "or_low"]
+ARMS = ["and_low", "zext", "concat0", "concatc", "sext", "shl", "shl", "extract", "extract0"]
 ZERO_HIGH = ["and_low", "zext", "concat0", "lshr"]          # layers whose result has known-zero high bits
 ZERO_LOW = ["and_high", "concatc", "shl"]                   # ... known-zero low bits
 
@@ -227,7 +228,7 @@ def gen_layered(rng, xs):
     """-> list of constraints: one two-layer shape, all ten comparisons, constants around the alignment and uniform"""
     import claripy
     x = rng.choice(xs)
-    outer = rng.choice(LAYERS)
+    outer = rng.choice(ARMS + ARMS + LAYERS)      # layers the balancer has an arm for, three times as often as the control layers
     n_out = rng.randrange(1, max(2, x.size()))
     r = rng.random()
     if r < 0.5:
